@@ -253,11 +253,28 @@ def str_strip_prefix_char(ctx, args, st):
     return g()
 
 
-@model(r'^(?:core::)?str::<impl str>::(trim_start_matches|trim_left_matches)::<char>$')
+def _char_set_arg(st, v):
+    """pattern argument: a char or an array of chars (all concrete)"""
+    if isinstance(v, Char): return [_char_arg(v)]
+    t = st.deref_all(v) if isinstance(v, Ref) else v
+    if isinstance(t, VecV): return [_char_arg(x) for x in t.items]
+    raise Unsupported(f'string pattern {v!r}')
+
+
+def _first_in(ex, st, s, cset):
+    if not s.chars:
+        yield st, False; return
+    c0 = s.chars[0]
+    if isinstance(c0, int):
+        yield st, c0 in cset; return
+    yield from ex.fork_bool(st, z3.Or(*[c0 == k for k in cset]))
+
+
+@model(r'^(?:core::)?str::<impl str>::(trim_start_matches|trim_left_matches)::<(?:char|\[char; \d+\])>$')
 def str_trim_start_matches_char(ctx, args, st):
-    s = str_of(st, args[0]); c = _char_arg(args[1])
+    s = str_of(st, args[0]); cset = _char_set_arg(st, args[1])
     def go(s_, cur):
-        for s2, yes in _first_is(ctx.ex, s_, cur, c):
+        for s2, yes in _first_in(ctx.ex, s_, cur, cset):
             if yes: yield from go(s2, StrV(cur.chars[1:], 'str'))
             else: yield s2, 'ret', s2.ref(cur.retag('str'))
     return go(st, s)
